@@ -10,6 +10,7 @@ import (
 	"context"
 	"errors"
 	"fmt"
+	"net"
 	"strings"
 	"sync"
 	"testing"
@@ -17,11 +18,13 @@ import (
 	"time"
 
 	"github.com/arloliu/go-secs/v2/hsms"
+	"github.com/arloliu/go-secs/v2/secs1"
 	"github.com/arloliu/go-secs/v2/secs2"
 	"pgregory.net/rapid"
 	"verif/harness/ev"
 	"verif/harness/netsim"
 	"verif/harness/ref/e37"
+	"verif/harness/ref/e4"
 	"verif/harness/vt"
 )
 
@@ -37,10 +40,10 @@ type c09Call struct {
 	done     bool
 }
 
-var c09Faults = []string{"peer-close", "peer-reset", "reply-then-close", "stall-queue-reset", "cut-mid-frame", "t8-stall", "linktest-dead", "separate", "write-timeout"}
+var c09Faults = []string{"peer-close", "peer-reset", "reply-then-close", "reply-then-close", "stall-queue-reset", "cut-mid-frame", "t8-stall", "linktest-dead", "separate", "write-timeout"}
 
 func TestC09Generations(t *testing.T) {
-	ev.Rule("1-3 consecutive TCP generations of one open connection (both roles); on each a program of 2-10 sends (sync W with reply / no reply, sync no-W, async, reply, forward, forward-async; unique tokens) from concurrent goroutines, ended by a drawn fault: peer close / reset / reply-then-close in one instant / reader stalled with a 4-slot async queue full then reset / reset after a drawn number of bytes (mid-frame) / T8 stall / unanswered linktests / Separate.req / write timeout on a closed window; the final generation may instead end by Close(); on the next generation the peer replays stale replies with the old system bytes and answers nothing else unless asked; oracle: a frame read on generation g carries a token whose call had not returned before g began; a reply never completes a send of another generation (a no-reply send of g+1 must still hit T3 although stale replies arrive); every call pending when a generation ends returns at that very instant with ErrConnClosed / its own error; async frames accepted on g never appear later; non-trivial = at least one send was queued, mid-write or awaiting a reply at the fault")
+	ev.Rule("1-3 consecutive TCP generations of one open connection (both roles); on each a program of 2-10 sends (sync W with reply / duplicate reply / no reply, sync no-W, async, reply, forward, forward-async; unique tokens) from concurrent goroutines, ended by a drawn fault: peer close / reset / reply-then-close in one instant / reader stalled with a 4-slot async queue full then reset / reset after a drawn number of bytes (mid-frame) / T8 stall / unanswered linktests / Separate.req / write timeout on a closed window; the final generation may instead end by Close(); on the next generation the peer replays stale replies with the old system bytes and answers nothing else unless asked; oracle: a frame read on generation g carries a token whose call had not returned before g began; a reply never completes a send of another generation (a no-reply send of g+1 must still hit T3 although stale replies arrive); every call pending when a generation ends returns at that very instant with ErrConnClosed / its own error; async frames accepted on g never appear later; non-trivial = at least one send was queued, mid-write or awaiting a reply at the fault")
 	vt.Bubble(t, func(t *testing.T) {
 		vt.CheckBubble(t, 12000, 600000, func(rt *rapid.T) { runC09(rt) })
 	})
@@ -105,6 +108,8 @@ func runC09(rt *rapid.T) {
 		tok    int
 	}
 	var stale []oldTx // transactions of earlier generations the peer saw (for stale replies)
+	prevFault := ""
+	prevDup, thisDup := false, false // a duplicate reply was played on the previous / this generation
 	tokenGen := map[int]int{}
 	for g := 1; g <= gens; g++ {
 		fault := rapid.SampledFrom(c09Faults).Draw(rt, "fault")
@@ -145,8 +150,13 @@ func runC09(rt *rapid.T) {
 				sawTx = append(sawTx, oldTx{f.Sys, f.Stream(), f.Function(), k})
 			}
 			pmu.Unlock()
-			if pol == "reply" {
-				_ = p.Send(e37.DataFrame(f.Session, f.Stream(), f.Function()+1, false, f.Sys, asciiBody(fmt.Sprintf("re%d", k))))
+			if pol == "reply" || pol == "reply-twice" {
+				r := e37.DataFrame(f.Session, f.Stream(), f.Function()+1, false, f.Sys, asciiBody(fmt.Sprintf("re%d", k)))
+				if pol == "reply-twice" {
+					_ = p.Send(r, r) // a duplicate reply in the same TCP write: it may be left buffered
+				} else {
+					_ = p.Send(r)
+				}
 			}
 		})
 		// stale replies for the previous generations' transactions arrive first on the new link
@@ -188,6 +198,9 @@ func runC09(rt *rapid.T) {
 			c := &c09Call{tok: tok, gen: g}
 			tok++
 			c.kind = rapid.SampledFrom([]string{"syncW", "syncW", "syncNoW", "async", "async", "reply", "forward", "forwardAsync"}).Draw(rt, "kind")
+			if (prevFault == "reply-then-close" || prevDup) && i < 3 && !stalled {
+				c.kind = "syncW" // unanswered on this generation: only a reply of the OLD generation could complete it
+			}
 			switch stallMode {
 			case "all-async":
 				c.kind = rapid.SampledFrom([]string{"async", "reply", "forwardAsync"}).Draw(rt, "asyncKind")
@@ -196,7 +209,13 @@ func runC09(rt *rapid.T) {
 			}
 			c.policy = "-"
 			if c.kind == "syncW" {
-				c.policy = rapid.SampledFrom([]string{"reply", "none", "none"}).Draw(rt, "policy")
+				c.policy = rapid.SampledFrom([]string{"reply", "reply-twice", "none", "none"}).Draw(rt, "policy")
+				if (prevFault == "reply-then-close" || prevDup) && i < 3 {
+					c.policy = "none"
+				}
+				if c.policy == "reply-twice" {
+					thisDup = true
+				}
 				if fault == "reply-then-close" {
 					c.policy = "none" // the reply comes from the fault itself
 				}
@@ -313,6 +332,8 @@ func runC09(rt *rapid.T) {
 			}
 		}
 		logf("generation %d ended by %s", g, fault)
+		prevFault = fault
+		prevDup, thisDup = thisDup, false
 		if active && !last && w.ln == nil {
 			_ = w.listen()
 		}
@@ -405,4 +426,200 @@ func isNetErr(err error) bool {
 	}
 	s := err.Error()
 	return strings.Contains(s, "netsim:") || strings.Contains(s, "closed network connection") || strings.Contains(s, "i/o timeout")
+}
+
+// TestC09Secs1: the same generation property on the SECS-I transport. A send is issued at the very
+// instant the line dies (or while the peer withholds EOT / ACK and then drops); it must complete
+// promptly with an error, the connection must come back, and nothing of the old generation may be
+// transmitted on the new line.
+func TestC09Secs1(t *testing.T) {
+	ev.Rule("a secs1 connection (host/equipment x active/passive) against the reference E4 line peer in virtual time; on each of 1-3 line generations 1-3 sequential sends; the generation is ended by the peer closing or resetting the line at a drawn point: while idle at the same instant as a send call, after the library's ENQ, after the peer's EOT (mid-block), or instead of the ACK; oracle: the pending send returns an error within T2 x (retry limit + 1) + 1 s (never hangs), a later send on the next generation succeeds, and no block carrying a token of an earlier generation appears on a later line; non-trivial = a send was pending when the line died")
+	vt.Bubble(t, func(t *testing.T) {
+		vt.CheckBubble(t, 4000, 200000, func(rt *rapid.T) { runC09Secs1(rt) })
+	})
+}
+
+func runC09Secs1(rt *rapid.T) {
+	active, equip := rapid.Bool().Draw(rt, "active"), rapid.Bool().Draw(rt, "equip")
+	const T1, T2 = 50 * time.Millisecond, 150 * time.Millisecond
+	rty := rapid.IntRange(0, 2).Draw(rt, "retryLimit")
+	w, err := newS1World(s1Opt{active: active, equip: equip, device: 7, opts: []secs1.Option{secs1.WithT1(T1), secs1.WithT2(T2), secs1.WithT4(time.Second), secs1.WithRetryLimit(rty),
+		secs1.WithConnectionOption(hsms.WithT5(40 * time.Millisecond)), secs1.WithConnectionOption(hsms.WithReconnectBackoff(10*time.Millisecond, 2)), secs1.WithConnectionOption(hsms.WithCloseTimeout(2 * time.Second))}})
+	if err != nil {
+		rt.Fatalf("VERIF-INFRA: %v", err)
+	}
+	var conns []net.Conn
+	var hist []string
+	defer func() {
+		_ = w.conn.Close()
+		for _, c := range conns {
+			_ = c.Close()
+		}
+		if w.ln != nil {
+			_ = w.ln.Close()
+		}
+		synctest.Wait()
+	}()
+	fail := func(p *e4.Peer, f string, a ...any) {
+		tr := ""
+		if p != nil {
+			tr = strings.Join(p.Trace, "\n  ")
+		}
+		rt.Fatalf("C09 violated (secs1 active=%v equip=%v retry limit %d): %s\nhistory:\n  %s\nlast line:\n  %s", active, equip, rty, fmt.Sprintf(f, a...), strings.Join(hist, "\n  "), tr)
+	}
+	if err := w.conn.Open(context.Background(), hsms.OpenBackground); err != nil {
+		rt.Fatalf("VERIF-INFRA: %v", err)
+	}
+	gens := rapid.IntRange(1, 3).Draw(rt, "generations")
+	tok := 0
+	tokGen := map[int]int{}
+	pendingAtDrop := false
+	for g := 1; g <= gens; g++ {
+		synctest.Wait()
+		c, err := w.lineUp(5 * time.Second)
+		if err != nil {
+			fail(nil, "line generation %d was never established: %v", g, err)
+		}
+		conns = append(conns, c)
+		p := &e4.Peer{C: c, IsMaster: !equip, T1: T1, T2: T2}
+		if !waitState(w.conn, hsms.SelectedState, time.Second) {
+			fail(p, "generation %d never reported Selected", g)
+		}
+		// a healthy send first: tokens of this generation only
+		for i, k := 0, rapid.IntRange(0, 2).Draw(rt, "healthy"); i < k; i++ {
+			id := tok
+			tok++
+			tokGen[id] = g
+			errCh := make(chan error, 1)
+			go func() {
+				ctx, cancel := ctxT(5 * time.Second)
+				defer cancel()
+				_, e := w.conn.SendDataMessage(ctx, 1, 1, false, secs2.A(fmt.Sprintf("t%d", id)))
+				errCh <- e
+			}()
+			blocks, rerr := p.ReceiveMessage(time.Second)
+			if e := <-errCh; e != nil || rerr != nil {
+				fail(p, "a send on a healthy line failed: %v / %v", e, rerr)
+			}
+			for _, b := range blocks {
+				if n, ok := tokenOfBody(b.Body); ok && tokGen[n] != g {
+					fail(p, "a block carrying token t%d of generation %d appeared on generation %d", n, tokGen[n], g)
+				}
+			}
+		}
+		// the generation-ending fault, with a send in flight
+		where := rapid.SampledFrom([]string{"same-instant", "after-enq", "after-eot", "instead-of-ack"}).Draw(rt, "dropAt")
+		id := tok
+		tok++
+		tokGen[id] = g
+		start := time.Now()
+		errCh := make(chan error, 1)
+		go func() {
+			ctx, cancel := ctxT(30 * time.Second)
+			defer cancel()
+			_, e := w.conn.SendDataMessage(ctx, 1, 3, false, secs2.A(fmt.Sprintf("t%d", id)))
+			errCh <- e
+		}()
+		drop := func() {
+			if rapid.Bool().Draw(rt, "reset") {
+				c.Reset()
+			}
+			_ = c.Close()
+		}
+		switch where {
+		case "same-instant":
+			drop()
+		case "after-enq":
+			b := make([]byte, 1)
+			_ = c.SetReadDeadline(time.Now().Add(time.Second))
+			if n, _ := c.Read(b); n != 1 || b[0] != e4.ENQ {
+				fail(p, "expected ENQ from the library, got %v", b[:n])
+			}
+			drop()
+		case "after-eot":
+			b := make([]byte, 1)
+			_ = c.SetReadDeadline(time.Now().Add(time.Second))
+			if n, _ := c.Read(b); n != 1 || b[0] != e4.ENQ {
+				fail(p, "expected ENQ from the library, got %v", b[:n])
+			}
+			_, _ = c.Write([]byte{e4.EOT})
+			buf := make([]byte, 5)
+			_ = c.SetReadDeadline(time.Now().Add(time.Second))
+			_, _ = c.Read(buf) // a few characters of the block
+			drop()
+		case "instead-of-ack":
+			p.Respond = func(e4.RecvBlock) byte { return 0 } // take the block, answer nothing
+			_, _, _ = p.ServeOne(time.Second)
+			drop()
+		}
+		hist = append(hist, fmt.Sprintf("generation %d: send t%d in flight, line dropped %s", g, id, where))
+		bound := T2*time.Duration(rty+1) + time.Second
+		select {
+		case e := <-errCh:
+			if e == nil && where != "same-instant" {
+				fail(p, "the send returned success although the line died before its block was acknowledged")
+			}
+			if d := time.Since(start); d > bound {
+				fail(p, "the pending send returned only after %v (bound %v)", d, bound)
+			}
+			pendingAtDrop = true
+		case <-time.After(bound + 5*time.Second):
+			fail(p, "the send pending when the line died never returned")
+		}
+		if active {
+			_ = w.listen()
+		}
+	}
+	// a final generation: works, and carries nothing old
+	synctest.Wait()
+	c, err := w.lineUp(5 * time.Second)
+	if err != nil {
+		fail(nil, "the line was never re-established: %v", err)
+	}
+	conns = append(conns, c)
+	p := &e4.Peer{C: c, IsMaster: !equip, T1: T1, T2: T2}
+	waitState(w.conn, hsms.SelectedState, time.Second)
+	errCh := make(chan error, 1)
+	go func() {
+		ctx, cancel := ctxT(5 * time.Second)
+		defer cancel()
+		_, e := w.conn.SendDataMessage(ctx, 1, 5, false, secs2.A("final"))
+		errCh <- e
+	}()
+	blocks, rerr := p.ReceiveMessage(time.Second)
+	if e := <-errCh; e != nil || rerr != nil {
+		fail(p, "after the drops a send on the new line fails: %v / %v", e, rerr)
+	}
+	for _, b := range blocks {
+		if _, ok := tokenOfBody(b.Body); ok {
+			fail(p, "a block of an earlier generation appeared on the final line: %v", b)
+		}
+	}
+	_ = p.Idle(20 * time.Millisecond)
+	for _, rb := range p.Received {
+		if n, ok := tokenOfBody(rb.Block.Body); ok {
+			fail(p, "a block carrying token t%d of an earlier generation was transmitted on the final line", n)
+		}
+	}
+	role := "host"
+	if equip {
+		role = "equipment"
+	}
+	ev.Case(pendingAtDrop, strings.Join(hist, "|")+fmt.Sprint(active, equip, rty), func() any {
+		return map[string]any{"role": role, "active": active, "retryLimit": rty, "history": hist}
+	}, "c09s1:role:"+role, fmt.Sprintf("c09s1:gens:%d", gens))
+}
+
+func tokenOfBody(b []byte) (int, bool) {
+	if len(b) < 3 || b[0] != 0x41 || b[2] != 't' {
+		return 0, false
+	}
+	n := 0
+	for _, c := range b[3:] {
+		if c < '0' || c > '9' {
+			return 0, false
+		}
+		n = n*10 + int(c-'0')
+	}
+	return n, len(b) > 3
 }
